@@ -18,7 +18,7 @@ from ..exceptions import (
     ParseException,
 )
 from ..util import boundcall, deprecated, left_assoc, regexpp, right_assoc
-from .cst import closedlist, cstfinal
+from .cst import closedlist, cstfinal, islist
 from .ctx import Func
 from .ctxlib import (
     ChoiceContext,
@@ -444,15 +444,24 @@ class ParseContext(ParserEngine):
         yield cl
         self._right_join(cl.func, cl.sep_func)
 
+    def _assoc_join(self, assoc: Any, exp: Func, sep: Func) -> Any:
+        # the tree is one value of the enclosing expression, as the list
+        # of a join is: assigning it to self.cst discarded what preceded it
+        def closed(tree: Any) -> Any:
+            if not islist(tree):
+                return tree
+            return closedlist(closed(t) for t in tree)
+
+        seq = self.isolate(lambda _: self.positive_join(exp, sep))
+        return self.state.append(closed(assoc(seq)))
+
     def left_join(self, exp: Func, sep: Func) -> Any:
-        self.cst = left_assoc(self.positive_join(exp, sep))
-        return self.cst
+        return self._assoc_join(left_assoc, exp, sep)
 
     _left_join = left_join
 
     def right_join(self, exp: Func, sep: Func) -> Any:
-        self.cst = right_assoc(self.positive_join(exp, sep))
-        return self.cst
+        return self._assoc_join(right_assoc, exp, sep)
 
     _right_join = right_join
 
